@@ -26,6 +26,8 @@ func (v *Verifier) ghostHeap(st *State, key string) *Term {
 		s = ArraySort(IntSort, ArraySort(IntSort, BVSort(8)))
 	case gAtomic:
 		s = ArraySort(IntSort, BVSort(64))
+	case gBigBits:
+		s = ArraySort(IntSort, ArraySort(IntSort, BoolSort))
 	}
 	return v.eng.heap(st, key, s)
 }
